@@ -124,6 +124,14 @@ var c12Specs = []c12Spec{
 		d := newWS("/d", true, "/x")
 		return &c12World{c: c, muts: []func(){func() { c.Add(b) }, func() { c.Add(d) }}, reqs: []h.Req{get("b", "x"), get("d", "x")}}
 	}},
+	{name: "add-vs-remove", servers: [][]int{{0, 1}}, mutators: [][]int{{0}, {1}}, world: func(jsr bool) *c12World {
+		c := c12Container(jsr)
+		c.Add(newWS("/a", true, "/x"))
+		b := newWS("/b", true, "/x")
+		c.Add(b)
+		d := newWS("/d", true, "/x")
+		return &c12World{c: c, muts: []func(){func() { c.Add(d) }, func() { c.Remove(b) }}, reqs: []h.Req{get("d", "x"), get("b", "x")}}
+	}},
 	{name: "route-and-unroute", servers: [][]int{{0, 1}}, mutators: [][]int{{0, 1}}, world: func(jsr bool) *c12World {
 		c := c12Container(jsr)
 		a := newWS("/a", true, "/x", "/y")
